@@ -84,6 +84,10 @@ class VReactor(task.Clock):
         return min(times) if times else None
 
     def _step(self):
+        """One pass of the event loop.  Like the real reactors' runUntilCurrent(), every call that is
+        due when the pass starts is run in this pass - even if one of them crashes the reactor - and
+        calls scheduled during the pass wait for the next one.  The order among calls due at the same
+        instant is the harness's (tie bits)."""
         t = self._due_time()
         if t is None:
             raise Hang("virtual reactor: nothing scheduled and not stopped")
@@ -91,21 +95,27 @@ class VReactor(task.Clock):
             self.rightNow = t
         due = [("call", c) for c in self.calls if c.getTime() <= self.rightNow] + \
               [("ext", e) for e in self.external if not e[2] and e[0] <= self.rightNow]
-        # harness-owned tie-break
-        if len(due) > 1:
-            k = self.ties[self._tie_pos] % len(due) if self._tie_pos < len(self.ties) else 0
-            self._tie_pos += 1
-        else:
-            k = 0
-        kind, item = due[k]
-        if kind == "call":
-            self.calls.remove(item)
-            item.called = 1
-            self.fired.append((self.rightNow, item))
-            item.func(*item.args, **item.kw)
-        else:
-            item[2] = True
-            item[1]()
+        due.sort(key=lambda d: d[1].getTime() if d[0] == "call" else d[1][0])
+        while due:
+            first_time = due[0][1].getTime() if due[0][0] == "call" else due[0][1][0]
+            same = [d for d in due if (d[1].getTime() if d[0] == "call" else d[1][0]) == first_time]
+            if len(same) > 1:
+                k = self.ties[self._tie_pos] % len(same) if self._tie_pos < len(self.ties) else 0
+                self._tie_pos += 1
+            else:
+                k = 0
+            kind, item = same[k]
+            due.remove((kind, item))
+            if kind == "call":
+                if item.cancelled or item.called:
+                    continue
+                self.calls.remove(item)
+                item.called = 1
+                self.fired.append((self.rightNow, item))
+                item.func(*item.args, **item.kw)
+            else:
+                item[2] = True
+                item[1]()
 
     def iterate(self, delay=0):
         # run what is due right now (used by Spinner._clean)
